@@ -29,7 +29,8 @@ RULE = ('air/vac: every menu wavelength (log lattice 100 A..30 um plus threshold
         'filter_thru: every unordered pair of comb impulses x coefficient menu x (wavelength solution, image/trace-set form, dtype, toair, mask) '
         'and every single masked run of 1..10 pixels starting on the comb x wild values; non-trivial = at least one band overlapped by the trace. '
         'Distinct = distinct (function, input, form/configuration) tuples.')
-ASSUMPTIONS = ['float64 forms: inverse relations to 1e-6 A as stated; agreement between forms to 1e-12 relative (unit-conversion rounding)',
+ASSUMPTIONS = ['every trace passed to filter_thru keeps at least one unmasked pixel (with none the answer is undefined; the code then integrates the masked values)',
+               'float64 forms: inverse relations to 1e-6 A as stated; agreement between forms to 1e-12 relative (unit-conversion rounding)',
                'float32 forms are compared at 1e-6 relative; a float32 cannot hold 1e-6 A at 5000 A',
                'filter_thru clauses are evaluated only in bands that at least one pixel of the trace overlaps by more than 5 A inside the '
                'tabulated support; bands within 5 A of the edge of the support are don\'t-care; in bands without overlap no value is demanded',
@@ -669,7 +670,8 @@ def run_task(task):
         specs.append(dict(kind='run', start=pix[1], len=3, shift=2, **extra))
         specs.append(dict(kind='allbut', keep=[pix[1]], **extra))
         specs.append(dict(kind='allbut', keep=[pix[0], pix[-1]], **extra))
-        specs.append(dict(kind='allbut', keep=[], **extra))
+        # a trace with every pixel masked is not generated: interpolating over masked pixels needs at least one good pixel,
+        # the property defines no answer there (it was reported as filter_thru:depends-on-masked-values:no-good-pixel)
         if task['part'] is not None:
             specs = specs[task['part']::2]
         for sp in specs:
